@@ -1,14 +1,36 @@
 mod book;
 mod chain;
 mod dec;
+mod gen;
 mod migrate;
 mod model;
 mod probes;
 mod rng;
+mod runner;
 mod seams;
 mod selftest;
 mod sim;
 mod types;
+
+fn arg<'a>(args: &'a [String], name: &str) -> Option<&'a str> {
+    args.iter().position(|a| a == name).and_then(|i| args.get(i + 1)).map(|s| s.as_str())
+}
+
+fn default_runs(prop: &str, tier: &str) -> u64 {
+    let quick: u64 = match prop {
+        "C05" => 1500,
+        "C06" => 4000,
+        "C16" => 3000,
+        "C13" => 60000,
+        "C15" => 6000,
+        _ => 8000,
+    };
+    if tier == "thorough" {
+        quick * 20
+    } else {
+        quick
+    }
+}
 
 fn main() {
     chain::install_quiet_panic_hook();
@@ -16,8 +38,50 @@ fn main() {
     let cmd = args.get(1).map(|s| s.as_str()).unwrap_or("help");
     let code = match cmd {
         "selftest" => selftest::run(),
+        "check" => {
+            let prop = args.get(2).cloned().unwrap_or_default();
+            if types::prop_index(&prop).is_none() {
+                eprintln!("HARNESS-ERROR: unknown property {}", prop);
+                std::process::exit(2);
+            }
+            let tier = arg(&args, "--tier").unwrap_or("quick").to_string();
+            let seed = arg(&args, "--seed")
+                .map(|s| s.to_string())
+                .or_else(|| std::env::var("VERIF_SEED").ok())
+                .and_then(|s| s.parse::<u64>().ok())
+                .unwrap_or(20261001);
+            let runs = arg(&args, "--runs").and_then(|s| s.parse().ok()).unwrap_or_else(|| default_runs(&prop, &tier));
+            let jobs = arg(&args, "--jobs")
+                .and_then(|s| s.parse().ok())
+                .unwrap_or_else(|| std::thread::available_parallelism().map(|n| n.get()).unwrap_or(4));
+            let o = runner::CheckOpts {
+                evidence: arg(&args, "--evidence").map(|s| s.to_string()).unwrap_or(format!("/verif/evidence/{}.json", prop)),
+                known: arg(&args, "--known").unwrap_or("/verif/known_findings.json").to_string(),
+                replay_dir: arg(&args, "--replays").unwrap_or("/verif/replays").to_string(),
+                wall_cap_s: arg(&args, "--cap").and_then(|s| s.parse().ok()).unwrap_or(if tier == "thorough" { 1500.0 } else { 240.0 }),
+                profile: arg(&args, "--profile").map(|s| s.to_string()),
+                prop,
+                tier,
+                seed,
+                runs,
+                jobs,
+            };
+            println!("VERIF_SEED={} property={} tier={} runs={} jobs={}", o.seed, o.prop, o.tier, o.runs, o.jobs);
+            runner::check(&o)
+        }
+        "replay" => {
+            let path = args.get(2).cloned().unwrap_or_default();
+            runner::replay_file(&path, args.iter().any(|a| a == "--quiet"))
+        }
+        "determinism" => {
+            let prop = args.get(2).cloned().unwrap_or("C01".into());
+            let seed = arg(&args, "--seed").and_then(|s| s.parse().ok()).unwrap_or(1);
+            let runs = arg(&args, "--runs").and_then(|s| s.parse().ok()).unwrap_or(200);
+            let jobs = arg(&args, "--jobs").and_then(|s| s.parse().ok()).unwrap_or(1);
+            runner::determinism(&prop, seed, runs, jobs)
+        }
         _ => {
-            eprintln!("usage: dsim selftest | check <ID> ... | replay <file>");
+            eprintln!("usage: dsim selftest | check <ID> [--tier T --seed S --runs N --jobs J] | replay <file> | determinism <ID> --seed S --runs N --jobs J");
             2
         }
     };
